@@ -2,6 +2,9 @@
    (coq/Ts), in logical time. This file contains statements, `exact`, and Print Assumptions only. *)
 From Coq Require Import List NArith Bool.
 From V.Ts Require Import Model Proofs Rearm Timing Extra Exact Names Multi MultiProofs.
+From V.Mgr Require Model.
+From V.C06 Require Compose08.
+From V.Link Require C06_C08.
 Import ListNotations.
 Open Scope N_scope.
 
@@ -349,3 +352,64 @@ Example C09_nonvacuous_half_close :
   strong (final (init true 300 0) tr) 1 = 1 /\
   strong (final (init true 300 0) (tr ++ [(0, EDropSub 1)])) 1 = 0.
 Proof. vm_compute. repeat split; reflexivity. Qed.
+
+(* ---- under the manager (coq/Link/C06_C08.v): the `feasible 2` hypothesis of the theorems above is
+   discharged for a service whose connection events are the reports of a history of the composed
+   system manager + protocol reports of coq/C06/Compose08.v (C06_provides_C08_feasible); left are
+   `xtrace` (the manager's environment) and `feasible_rest` (the connection task's side: substream
+   notifications for open connections, answers for opens in flight). ---- *)
+Theorem C09_idle_close_exact_under_manager :
+  forall (L : V.Mgr.Model.limits) (xs : list V.C06.Compose08.xev) tr ka T n0,
+  V.C06.Compose08.xtrace L V.C06.Compose08.x0 xs ->
+  filter V.C06.Compose08.is_conn (map snd tr) = V.C06.Compose08.xproj xs ->
+  V.C06.Compose08.feasible_rest env0 (init ka T n0) tr = true ->
+  let s := final (init ka T n0) tr in
+  (forall k, handle_active (s_ctxs s) k = true ->
+     exists t, kfind k (s_last s) = Some t /\ kfind k (s_act s) = Some t /\
+               t <= s_now s /\ s_now s < t + s_T s) /\
+  (forall dt e p c, on_time s dt -> 0 < s_T s -> In (ODown p c) (snd (step s dt e)) ->
+     exists t, kfind (p, c) (s_act (fst (step s dt e))) = Some t /\
+               s_now (fst (step s dt e)) = t + s_T (fst (step s dt e))) /\
+  (forall c, 0 < pend_on c (s_pend s) \/ 0 < ch_held_of c (s_chans s) -> 0 < strong s c).
+Proof.
+  intros L xs tr ka T n0 HX HP HR.
+  exact (C09_idle_close_exact tr ka T n0 (V.Link.C06_C08.feasible_under_manager L xs tr ka T n0 HX HP HR)).
+Qed.
+Print Assumptions C09_idle_close_exact_under_manager.
+
+Theorem C09_rearm_single_under_manager :
+  forall (L : V.Mgr.Model.limits) (xs : list V.C06.Compose08.xev) tr ka T n0 k,
+  V.C06.Compose08.xtrace L V.C06.Compose08.x0 xs ->
+  filter V.C06.Compose08.is_conn (map snd tr) = V.C06.Compose08.xproj xs ->
+  V.C06.Compose08.feasible_rest env0 (init ka T n0) tr = true ->
+  (cnt k (s_timers (final (init ka T n0) tr)) <= 1)%nat.
+Proof.
+  intros L xs tr ka T n0 k HX HP HR.
+  exact (C09_rearm_single tr ka T n0 k (V.Link.C06_C08.feasible_under_manager L xs tr ka T n0 HX HP HR)).
+Qed.
+Print Assumptions C09_rearm_single_under_manager.
+
+Theorem C09_tracked_is_active_under_manager :
+  forall (L : V.Mgr.Model.limits) (xs : list V.C06.Compose08.xev) tr ka T n0 k t,
+  V.C06.Compose08.xtrace L V.C06.Compose08.x0 xs ->
+  filter V.C06.Compose08.is_conn (map snd tr) = V.C06.Compose08.xproj xs ->
+  V.C06.Compose08.feasible_rest env0 (init ka T n0) tr = true ->
+  kfind k (s_last (final (init ka T n0) tr)) = Some t ->
+  handle_active (s_ctxs (final (init ka T n0) tr)) k = true.
+Proof.
+  intros L xs tr ka T n0 k t HX HP HR.
+  exact (C09_tracked_is_active tr ka T n0 k t (V.Link.C06_C08.feasible_under_manager L xs tr ka T n0 HX HP HR)).
+Qed.
+Print Assumptions C09_tracked_is_active_under_manager.
+
+Theorem C09_view_is_live_under_manager :
+  forall (L : V.Mgr.Model.limits) (xs : list V.C06.Compose08.xev) tr ka T n0 p,
+  V.C06.Compose08.xtrace L V.C06.Compose08.x0 xs ->
+  filter V.C06.Compose08.is_conn (map snd tr) = V.C06.Compose08.xproj xs ->
+  V.C06.Compose08.feasible_rest env0 (init ka T n0) tr = true ->
+  conn_ids (s_ctxs (final (init ka T n0) tr)) p = live_of p (e_live (efinal env0 tr)).
+Proof.
+  intros L xs tr ka T n0 p HX HP HR.
+  exact (C09_view_is_live tr ka T n0 p (V.Link.C06_C08.feasible_under_manager L xs tr ka T n0 HX HP HR)).
+Qed.
+Print Assumptions C09_view_is_live_under_manager.
